@@ -177,3 +177,107 @@ PROPS["C08"] = {
          "trace_module": "ReplicaTrace", "trace_consts": dict(RANGER, Prop='"C08"'), "tv_timeout": 3000},
     ],
 }
+
+# ------------------------------------------------------------------------------------------ C05
+PROPS["C05"] = {
+    "level": "model_checking",
+    "rule": "model: every reachable (records, by-key index incl. stale ids) over a 24-entry universe, both physical paths "
+            "vs Query.tla for all key filters / directions / include-empty; implementation: states built by real histories "
+            "(2-3 authors, 0xFF-edged and prefix-related keys, markers, pruned entries, timestamp ties), full product of 8 "
+            "query dimensions on the first states and a seeded sample on the rest, plus every point lookup; a case is one query",
+    "assumptions": ["where the property is silent the spec accepts either choice: timestamp ties in a latest-per-key group; "
+                    "author filter and include-empty applied before or after grouping"],
+    "models": [
+        {"name": "query-paths", "module": "MCQueryIndex", "workers": 8,
+         "consts": dict(ENTRY, Universe="<- UQ", MaxOffered=3, IndexMaintained="TRUE"),
+         "invariants": ["PathsAgree", "NoLiveRecordWithoutIndexRow"]},
+    ],
+    "sensitivity": [
+        {"base": "query-paths", "flip": {"PrefixBoundCarry": "FALSE"}},
+        {"base": "query-paths", "flip": {"IndexMaintained": "FALSE"}},
+    ],
+    "drives": [
+        {"name": "query", "cmd": "query", "args": {"n": {"quick": 30, "thorough": 600}, "sample": {"quick": 1500, "thorough": 2500}},
+         "trace_module": "QueryTrace", "trace_consts": dict(ENTRY), "tv_timeout": 3000},
+    ],
+}
+
+# ------------------------------------------------------------------------------------------ Docs family
+DOCS_CONSTS = dict(ENTRY, DocIds="<- Ids3", EntryU="<- EU", PeerIds="{1, 2, 3}", Pols="<- P2", MaxSteps=6, PeerCap=2,
+                   RemoveClearsHeads="TRUE", RemoveClearsSettings="TRUE", RemoveUpperBound="TRUE",
+                   ImportNeverDowngrades="TRUE", PeerRefreshMoves="TRUE", RebuildTakesMax="TRUE")
+DOCS_INV = ["NoOrphans", "HeadsRowsExact", "PeerListOk"]
+DOCS_PROPS = ["CapMonotone", "OthersUntouched", "RemovedIsGone", "PeerMRU"]
+DOCS_Q = {"name": "docs-quick", "module": "MCDocs", "workers": 10, "consts": DOCS_CONSTS,
+          "invariants": DOCS_INV, "properties": DOCS_PROPS, "tiers": ("quick", "thorough")}
+DOCS_T = {"name": "docs-deep", "module": "MCDocs", "workers": 14, "timeout": 3000,
+          "consts": dict(DOCS_CONSTS, MaxSteps=8), "invariants": DOCS_INV, "properties": DOCS_PROPS, "tiers": ("thorough",)}
+DOCS_PEERS = {"name": "docs-peers", "module": "MCDocs", "workers": 10, "timeout": 1800,
+              "consts": dict(DOCS_CONSTS, DocIds="<- Ids2", EntryU="<- NoEntries", Pols="<- NoPols",
+                             PeerIds="<- P7", PeerCap=5, MaxSteps={"q": 7}["q"]),
+              "invariants": DOCS_INV, "properties": ["PeerMRU", "OthersUntouched"]}
+DOCS_REBUILD = {"name": "docs-rebuild", "module": "MCDocs", "workers": 10,
+                "consts": dict(DOCS_CONSTS, EntryU="<- EU18", PeerIds="{1}", Pols="<- NoPols", MaxSteps=7,
+                               DocIds="<- Ids2"),
+                "invariants": DOCS_INV, "properties": ["OthersUntouched"]}
+DOCS_ASSUME = ["documents with exact byte-neighbour ids exist only as read-only documents (no secret for a chosen id), so "
+               "record-level isolation is exercised between real-key documents adjacent in byte order and settings-level "
+               "isolation between exact byte neighbours (..FE, ..FF, carry successor, FF..FF)"]
+
+
+def docs_drive(prop, nq=80, nt=2500):
+    return {"name": "docs", "cmd": "docs", "args": {"n": {"quick": nq, "thorough": nt}},
+            "trace_module": "DocsTrace", "trace_consts": dict(ENTRY, Prop='"%s"' % prop, PeerCap=5), "tv_timeout": 3000}
+
+
+PROPS["C07"] = {
+    "level": "model_checking",
+    "rule": "model: all histories (<= 6 / 8 steps) of imports (read/write), open, close, local and remote writes, removal and "
+            "reopen over 3 byte-neighbour documents; implementation: seeded histories over 3 real + 4 synthetic documents",
+    "assumptions": DOCS_ASSUME,
+    "models": [DOCS_Q, DOCS_T],
+    "sensitivity": [{"base": "docs-quick", "flip": {"ImportNeverDowngrades": "FALSE"}}],
+    "drives": [docs_drive("C07")],
+}
+PROPS["C15"] = {
+    "level": "model_checking",
+    "rule": "model: policies per document across removal/reopen; implementation: set/get on existing, missing and removed "
+            "documents incl. reopen; DownloadPolicy::matches on random policies/keys; Display/FromStr of filters with "
+            "non-UTF-8, empty and ':'-containing bytes (the should_download flag of real events is checked under C12)",
+    "assumptions": DOCS_ASSUME,
+    "models": [DOCS_Q],
+    "sensitivity": [{"base": "docs-quick", "flip": {"RemoveClearsSettings": "FALSE"}}],
+    "drives": [docs_drive("C15")],
+}
+PROPS["C16"] = {
+    "level": "model_checking",
+    "rule": "model: removal refused while open, removed document unobservable, every other document untouched, over 3 ids "
+            "<<1,255>>, <<2,0>>, <<255,255>> with the namespace range mechanism; implementation: all observers of all 7 "
+            "documents + the store-wide content-hash list compared after every step",
+    "assumptions": DOCS_ASSUME,
+    "models": [DOCS_Q, DOCS_T],
+    "sensitivity": [{"base": "docs-quick", "flip": {"RemoveClearsHeads": "FALSE"}},
+                    {"base": "docs-quick", "flip": {"RemoveClearsSettings": "FALSE"}},
+                    {"base": "docs-quick", "flip": {"RemoveUpperBound": "FALSE"}}],
+    "drives": [docs_drive("C16")],
+}
+PROPS["C17"] = {
+    "level": "model_checking",
+    "rule": "model: all registration sequences (<= 7) over 7 peers x 2 documents with cap 5; implementation: seeded "
+            "registrations over 7 peers and 7 documents incl. unknown / removed documents and reopen",
+    "assumptions": DOCS_ASSUME + ["two registrations never share a nanosecond (the harness sleeps 2 us between them)"],
+    "models": [DOCS_Q, DOCS_PEERS],
+    "sensitivity": [{"base": "docs-quick", "flip": {"PeerRefreshMoves": "FALSE"}}],
+    "drives": [docs_drive("C17", 80, 3000)],
+}
+PROPS["C18"] = {
+    "level": "model_checking",
+    "rule": "model: heads table rebuilt by a scan in table order for every reachable records table (2 documents, 2 authors, "
+            "equal timestamps, markers); implementation: latest-by-author-1 and/or records-by-key-1 deleted with plain redb "
+            "from real database files, reopened through Store::persistent; heads and key-ordered queries must equal their "
+            "definition over the records; plain reopen must change no observer",
+    "assumptions": DOCS_ASSUME + ["tables are removed with redb's delete_table, as the repository's own migration tests do"],
+    "models": [DOCS_REBUILD],
+    "sensitivity": [{"base": "docs-rebuild", "flip": {"RebuildTakesMax": "FALSE"}}],
+    "drives": [docs_drive("C18")],
+}
